@@ -272,9 +272,15 @@ func checkC18(c DialCell, o *Obs) error {
 		// A Proxy function need not be pure (rotation, health checks): it is
 		// asked once per dial; what it said then holds for the whole dial.  A
 		// second question within the same dial is answered "no proxy".
-		d.Proxy = func(*http.Request) (*url.URL, error) {
+		d.Proxy = func(r *http.Request) (*url.URL, error) {
 			proxyAsked++
 			if proxyAsked > 1 {
+				return nil, nil
+			}
+			// like http.ProxyFromEnvironment (the DefaultDialer's Proxy), it
+			// chooses by the request's URL: only http and https requests have a
+			// proxy, and the URL names the backend
+			if r == nil || r.URL == nil || (r.URL.Scheme != "http" && r.URL.Scheme != "https") {
 				return nil, nil
 			}
 			return purl, nil
